@@ -14,12 +14,19 @@ theorem liveFrom_append (a b : List Shape) (i : Nat) :
     simp only [List.cons_append, liveFrom, List.length_cons]
     split <;> simp [ih, Nat.add_assoc, Nat.add_comm 1]
 
-/-- well-formedness of the index bookkeeping -/
+/-- well-formedness of the index bookkeeping.  While a removal is queued the cell list is stale (it still
+    holds the removed shape); what is kept then is that the next update is a non-first one, i.e. a rebuild. -/
 structure IdxOK (x : Index) : Prop where
   next : x.nextID = x.shapes.length
   posLe : x.pendingAdditionsPos ≤ x.shapes.length
-  cells : x.cells = liveIds (x.shapes.take x.pendingAdditionsPos)
+  cells : x.pendingRemovals = [] → x.cells = liveIds (x.shapes.take x.pendingAdditionsPos)
   fresh : x.status = .fresh → x.pendingAdditionsPos = x.shapes.length
+  freshRem : x.status = .fresh → x.pendingRemovals = []
+  remPos : x.pendingRemovals ≠ [] → x.pendingAdditionsPos ≠ 0
+
+/-- the sentinel matters only once a shape has been removed -/
+def Vis (f : Fixes) (x : Index) : Prop :=
+  (f.d4 = true ∧ f.d52 = true) ∨ (x.gone = [] ∧ x.pendingRemovals = [])
 
 theorem idxOK_new : IdxOK Index.new := by constructor <;> simp [Index.new, liveIds, liveFrom]
 
@@ -29,9 +36,45 @@ theorem idxOK_add {x : Index} (h : IdxOK x) (sh : Shape) : IdxOK (x.add sh).1 :=
   · simp [Index.add]; have := h.posLe; omega
   · simp only [Index.add]; rw [List.take_append_of_le_length h.posLe]; exact h.cells
   · simp [Index.add]
+  · simp [Index.add]
+  · exact h.remPos
 
 theorem idxOK_reset_fixed {x : Index} (f : Fixes) (hf : f.d5 = true) : IdxOK (x.reset f) := by
   constructor <;> simp [Index.reset, hf, liveIds, liveFrom]
+
+/-- replacing a shape beyond the prefix does not change the prefix -/
+theorem take_set_of_le (l : List Shape) (id pos : Nat) (a : Shape) (h : pos ≤ id) :
+    (l.set id a).take pos = l.take pos := by
+  induction l generalizing id pos with
+  | nil => simp
+  | cons x t ih =>
+    cases pos with
+    | zero => simp
+    | succ p =>
+      cases id with
+      | zero => omega
+      | succ j => simp [List.set, ih j p (by omega)]
+
+/-- `Remove` keeps the bookkeeping well-formed -/
+theorem idxOK_remove {x : Index} (h : IdxOK x) (id : Nat) : IdxOK (x.remove id) := by
+  unfold Index.remove
+  by_cases hid : id ≥ x.pendingAdditionsPos
+  · simp only [hid, if_true]
+    constructor
+    · simp [h.next]
+    · simp; exact h.posLe
+    · intro hr; simp only at hr ⊢; rw [take_set_of_le _ _ _ _ hid]; exact h.cells hr
+    · intro hf; simp only at hf ⊢; simp; exact h.fresh hf
+    · exact h.freshRem
+    · exact h.remPos
+  · simp only [hid, if_false]
+    constructor
+    · simp [h.next]
+    · simp; exact h.posLe
+    · intro hr; simp at hr
+    · intro hf; simp at hf
+    · intro hf; simp at hf
+    · intro _; simp only; omega
 
 theorem take_pending (shapes : List Shape) (pos : Nat) (h : pos ≤ shapes.length) :
     liveIds (shapes.take pos) ++ pendingLive shapes pos = liveIds shapes := by
@@ -41,7 +84,36 @@ theorem take_pending (shapes : List Shape) (pos : Nat) (h : pos ≤ shapes.lengt
   rw [this]; simp [List.length_take, Nat.min_eq_left h]
 
 /-- on a well-formed index every successful `maybeApplyUpdates` yields the complete, fresh index -/
-theorem mau_some {f : Fixes} {x y : Index} (h : IdxOK x) (hy : maybeApplyUpdates f x = some y) :
+theorem visible_id {f : Fixes} {x : Index} (hv : Vis f x) (pos : Nat) (hpos : pos ≤ x.shapes.length) :
+    visible f x (pendingLive x.shapes pos) = pendingLive x.shapes pos := by
+  unfold visible
+  rcases hv with hv | ⟨hv, _⟩
+  · simp [hv.2]
+  · split
+    · rfl
+    · have hb : ∀ (l : List Shape) (i : Nat) (id : Nat), id ∈ liveFrom l i → id < i + l.length := by
+        intro l
+        induction l with
+        | nil => intro i id h; simp [liveFrom] at h
+        | cons a t ih =>
+          intro i id h
+          simp only [liveFrom] at h
+          split at h
+          · rcases List.mem_cons.mp h with h | h
+            · subst h; simp
+            · have := ih _ _ h; simp; omega
+          · have := ih _ _ h; simp; omega
+      apply List.filter_eq_self.mpr
+      intro id hid
+      have := hb _ _ _ hid
+      simp only [Index.numPresent, hv, List.length_nil, Nat.sub_zero, decide_eq_true_eq]
+      simp only [List.length_drop] at this
+      omega
+
+/-- on a well-formed index every successful `maybeApplyUpdates` yields the complete, fresh index (with the
+    old sentinel `Len()`: as long as no shape has been removed) -/
+theorem mau_some {f : Fixes} {x y : Index} (h : IdxOK x) (hy : maybeApplyUpdates f x = some y)
+    (hv : Vis f x := by first | exact Or.inl ⟨rfl, rfl⟩ | assumption) :
     IdxOK y ∧ y.shapes = x.shapes ∧ y.nextID = x.nextID ∧ y.status = .fresh ∧ y.cells = liveIds x.shapes := by
   unfold maybeApplyUpdates at hy
   split at hy
@@ -49,27 +121,51 @@ theorem mau_some {f : Fixes} {x y : Index} (h : IdxOK x) (hy : maybeApplyUpdates
     unfold applyUpdatesInternal at hy
     have hc := h.cells
     have htp := take_pending x.shapes x.pendingAdditionsPos h.posLe
+    simp only [visible_id hv _ h.posLe, visible_id hv 0 (Nat.zero_le _)] at hy
     split at hy
-    · simp at hy; subst hy
-      refine ⟨⟨by simp [h.next], by simp, ?_, by simp⟩, rfl, rfl, rfl, ?_⟩
-      · simp [hc, htp]
-      · simp [hc, htp]
+    · rename_i hp0
+      have hp0 : x.pendingAdditionsPos = 0 := by simpa using hp0
+      have hr : x.pendingRemovals = [] := by
+        by_cases hr : x.pendingRemovals = []
+        · exact hr
+        · exact absurd hp0 (h.remPos hr)
+      simp at hy; subst hy
+      refine ⟨⟨by simp [h.next], by simp, ?_, by simp, by simp, by simp⟩, rfl, rfl, rfl, ?_⟩
+      · intro _; simp [hc hr, htp]
+      · simp [hc hr, htp]
     · split at hy
-      · simp at hy; subst hy
-        refine ⟨⟨by simp [h.next], by simp, ?_, by simp⟩, rfl, rfl, rfl, ?_⟩ <;>
-          simp [pendingLive, liveIds]
+      · split at hy
+        · simp at hy; subst hy
+          refine ⟨⟨by simp [h.next], by simp, ?_, by simp, by simp, by simp⟩, rfl, rfl, rfl, ?_⟩ <;>
+            simp [pendingLive, liveIds]
+        · rename_i hnp
+          simp only [Bool.or_eq_true, decide_eq_true_eq, Bool.not_eq_true', List.isEmpty_eq_false_iff,
+            not_or, Nat.not_lt, ne_eq, Decidable.not_not] at hnp
+          obtain ⟨hge, hr⟩ := hnp
+          simp at hy; subst hy
+          have hpl : x.pendingAdditionsPos = x.shapes.length := by
+            have := h.posLe; have := h.next; omega
+          refine ⟨⟨by simp [h.next], by simp, ?_, by simp, ?_, ?_⟩, rfl, rfl, rfl, ?_⟩
+          · intro _; simp only; rw [hc hr, hpl]
+          · intro _; exact hr
+          · intro hne; exact absurd hr hne
+          · simp only; rw [hc hr, hpl, List.take_length]
       · by_cases hemp : (pendingLive x.shapes x.pendingAdditionsPos).isEmpty = true
         · simp [hemp] at hy; subst hy
           have hnil : pendingLive x.shapes x.pendingAdditionsPos = [] := by simpa using hemp
           rw [hnil, List.append_nil] at htp
-          refine ⟨⟨by simp [h.next], by simp, ?_, by simp⟩, rfl, rfl, rfl, ?_⟩ <;> simp [hc, htp]
+          have hr : x.pendingRemovals = [] := by
+            rcases hv with ⟨hd4, _⟩ | ⟨_, hr⟩
+            · rename_i hnd4 _; exact absurd hd4 hnd4
+            · exact hr
+          refine ⟨⟨by simp [h.next], by simp, ?_, by simp, by simp, by simp⟩, rfl, rfl, rfl, ?_⟩ <;> simp [hc hr, htp]
         · simp [hemp] at hy
   · rename_i hfr
     simp at hy; subst hy
     have hf : x.status = .fresh := by simpa using hfr
     have hp := h.fresh hf
     refine ⟨h, rfl, rfl, hf, ?_⟩
-    rw [h.cells, hp, List.take_length]
+    rw [h.cells (h.freshRem hf), hp, List.take_length]
 
 /-- with the D4 repair `maybeApplyUpdates` never blocks -/
 theorem mau_fixed_isSome {f : Fixes} (hf : f.d4 = true) (x : Index) : ∃ y, maybeApplyUpdates f x = some y := by
@@ -77,7 +173,8 @@ theorem mau_fixed_isSome {f : Fixes} (hf : f.d4 = true) (x : Index) : ∃ y, may
   split
   · split
     · exact ⟨_, rfl⟩
-    · simp [hf]
+    · simp only [hf, if_true]
+      split <;> exact ⟨_, rfl⟩
   · exact ⟨_, rfl⟩
 
 /-- a first update (or an already fresh index) never blocks, whatever the repairs -/
@@ -92,17 +189,28 @@ theorem mau_first_isSome (f : Fixes) (x : Index) (h : x.status = .fresh ∨ x.pe
   · exact ⟨_, rfl⟩
 
 /-- away from the D4 trigger the faithful and the repaired `maybeApplyUpdates` coincide -/
-theorem mau_agree (f g : Fixes) (x : Index) (h : x.status = .fresh ∨ x.pendingAdditionsPos = 0) :
+theorem mau_agree (f g : Fixes) (x : Index) (h : x.status = .fresh ∨ x.pendingAdditionsPos = 0)
+    (hf : Vis f x) (hg : Vis g x) :
     maybeApplyUpdates f x = maybeApplyUpdates g x := by
   unfold maybeApplyUpdates applyUpdatesInternal
   split
   · rename_i hs
     rcases h with h | h
     · simp [h] at hs
-    · simp [h]
+    · simp [h, visible_id hf 0 (Nat.zero_le _), visible_id hg 0 (Nat.zero_le _)]
   · rfl
 
-theorem reset_agree (f g : Fixes) (x : Index) (h : x.pendingAdditionsPos = 0) : x.reset f = x.reset g := by
-  simp [Index.reset, h]
+theorem reset_agree (f g : Fixes) (x : Index) (h : x.pendingAdditionsPos = 0) (hr : x.pendingRemovals = []) :
+    x.reset f = x.reset g := by
+  simp [Index.reset, h, hr]
+
+/-- none of the update / search functions touches the set of removed ids -/
+theorem mau_gone {f : Fixes} {x y : Index} (hy : maybeApplyUpdates f x = some y) : y.gone = x.gone := by
+  unfold maybeApplyUpdates applyUpdatesInternal at hy
+  repeat' split at hy
+  all_goals first
+    | (simp at hy; subst hy; rfl)
+    | (simp at hy; obtain ⟨_, hy⟩ := hy; subst hy; rfl)
+    | (simp at hy)
 
 end S2Proofs.HistoryLemmas
